@@ -1,6 +1,7 @@
 import PeptVerif.Model.Combinatoric
 import PeptVerif.Spec.Combinatoric
 import PeptVerif.Lemmas.Combinatoric
+import PeptVerif.Lemmas.CombinatoricSpec
 /-!
 # C19 - combinatorial expansions are exactly the combinatorics of the modified residues
 
@@ -108,6 +109,52 @@ theorem combinations_spec (a : Annotation) (size : Option Nat) :
 theorem combinations_with_replacement_spec (a : Annotation) (size : Option Nat) :
     combinationsWithReplacement a size = (cwrK (sizeOf a size) (residues a)).map (wrap a) := by
   simp [combinationsWithReplacement, components_eq, cwrK_map, assemble_singletons, Function.comp_def]
+
+/-! ## the enumerations are the standard ones, in order
+
+The `itertools` documentation defines the four enumerations through index tuples: all tuples of `range(n)` of
+length `k` in lexicographic order (`product`), those without a repeated index (`permutations`), with strictly
+increasing indices (`combinations`), with weakly increasing indices (`combinations_with_replacement`); the
+result is the tuple read through the pool. `specProd/specPerms/specCombs/specCwr` (Spec/Combinatoric.lean) are
+literally these definitions; the recursive models agree with them for every pool (repeated elements included)
+and every size - content *and* order. -/
+
+theorem prod_is_standard {α : Type} (k : Nat) (l : List α) : prodK k l = specProd k l := prodK_eq_spec k l
+
+theorem perms_is_standard {α : Type} (k : Nat) (l : List α) : permsK k l = specPerms k l := permsK_eq_spec k l
+
+theorem combs_is_standard {α : Type} (k : Nat) (l : List α) : combsK k l = specCombs k l := combsK_eq_spec k l
+
+theorem cwr_is_standard {α : Type} (k : Nat) (l : List α) : cwrK k l = specCwr k l := cwrK_eq_spec k l
+
+/-- the whole property for `permutations` in one statement: the results are, in order, the index tuples without
+repetition, each read through the modified residues and wrapped in the globals of `a` -/
+theorem permutations_standard (a : Annotation) (size : Option Nat) :
+    permutations a size =
+      ((tuples (sizeOf a size) a.seq.length).filter fun t => decide t.Nodup).map fun idx => wrap a (pick (residues a) idx) := by
+  rw [permutations_spec, perms_is_standard, specPerms]
+  simp [residues, Function.comp_def]
+
+theorem product_standard (a : Annotation) (rep : Option Nat) :
+    product a rep = (tuples (sizeOf a rep) a.seq.length).map fun idx => wrap a (pick (residues a) idx) := by
+  rw [product_spec, prod_is_standard, specProd]
+  simp [residues, Function.comp_def]
+
+theorem combinations_standard (a : Annotation) (size : Option Nat) :
+    combinations a size =
+      ((tuples (sizeOf a size) a.seq.length).filter fun t => decide (t.Pairwise (· < ·))).map
+        fun idx => wrap a (pick (residues a) idx) := by
+  rw [combinations_spec, combs_is_standard, specCombs]
+  simp [residues, Function.comp_def]
+
+theorem combinations_with_replacement_standard (a : Annotation) (size : Option Nat) :
+    combinationsWithReplacement a size =
+      ((tuples (sizeOf a size) a.seq.length).filter fun t => decide (t.Pairwise (· ≤ ·))).map
+        fun idx => wrap a (pick (residues a) idx) := by
+  rw [combinations_with_replacement_spec, cwr_is_standard, specCwr]
+  simp [residues, Function.comp_def]
+
+example : specPerms 2 [10, 20, 20] = [[10, 20], [10, 20], [20, 10], [20, 20], [20, 10], [20, 20]] := by decide
 
 /-- the i-th entry of `residues a` is the i-th residue with the mods it carries -/
 theorem residues_getElem (a : Annotation) (i : Nat) (h : i < (residues a).length) :
